@@ -1037,32 +1037,7 @@ func twccExtensionCall(p *Prog, call ssa.CallInstruction) bool {
 		return false
 	}
 	id := args[1]
-	isIDField := func(v ssa.Value) bool {
-		if u, ok := v.(*ssa.UnOp); ok && u.Op == token.MUL {
-			if fa, ok := u.X.(*ssa.FieldAddr); ok {
-				return fieldKeyAddr(fa) == "interceptor.RTPHeaderExtension.ID"
-			}
-		}
-		if f, ok := v.(*ssa.Field); ok {
-			if fv := fieldOfVal(f); fv != nil && fv.Name() == "ID" && typeKey(f.X.Type()) == "interceptor.RTPHeaderExtension" {
-				return true
-			}
-		}
-		return false
-	}
-	usesURI := func(fn *ssa.Function) bool {
-		found := false
-		instrsOf(fn, func(in ssa.Instruction) {
-			if bo, ok := in.(*ssa.BinOp); ok && (bo.Op == token.EQL || bo.Op == token.NEQ) {
-				for _, s := range []ssa.Value{bo.X, bo.Y} {
-					if c, ok := s.(*ssa.Const); ok && c.Value != nil && strings.Contains(c.Value.ExactString(), "transport-wide-cc-extensions") {
-						found = true
-					}
-				}
-			}
-		})
-		return found
-	}
+	isIDField, usesURI := twccIsIDField, twccUsesURI
 	top := call.Parent()
 	for top.Parent() != nil {
 		top = top.Parent()
@@ -1115,6 +1090,33 @@ func twccExtensionCall(p *Prog, call ssa.CallInstruction) bool {
 		return okHelper
 	})
 	return okHelper
+}
+
+func twccIsIDField(v ssa.Value) bool {
+	if u, ok := v.(*ssa.UnOp); ok && u.Op == token.MUL {
+		if fa, ok := u.X.(*ssa.FieldAddr); ok {
+			return fieldKeyAddr(fa) == "interceptor.RTPHeaderExtension.ID"
+		}
+	}
+	if f, ok := v.(*ssa.Field); ok {
+		if fv := fieldOfVal(f); fv != nil && fv.Name() == "ID" && typeKey(f.X.Type()) == "interceptor.RTPHeaderExtension" {
+			return true
+		}
+	}
+	return false
+}
+func twccUsesURI(fn *ssa.Function) bool {
+	found := false
+	instrsOf(fn, func(in ssa.Instruction) {
+		if bo, ok := in.(*ssa.BinOp); ok && (bo.Op == token.EQL || bo.Op == token.NEQ) {
+			for _, s := range []ssa.Value{bo.X, bo.Y} {
+				if c, ok := s.(*ssa.Const); ok && c.Value != nil && strings.Contains(c.Value.ExactString(), "transport-wide-cc-extensions") {
+					found = true
+				}
+			}
+		}
+	})
+	return found
 }
 
 // twccIDValue: v (in function fn) is the negotiated transport-wide-CC extension id: read from RTPHeaderExtension.ID in
